@@ -1,5 +1,666 @@
 package main
 
-func tryReplay(P *Program, rf *ReplayFile, o *Obligation, vals map[string]string) {}
+// Replay of solver counterexamples against the real code (go test -overlay, nothing written to /repo).
 
-func runGoTest(repo, fnKey, test string) (string, bool) { return "", false }
+import (
+	"bytes"
+	"context"
+	"encoding/json"
+	"fmt"
+	"go/types"
+	"math/big"
+	"os"
+	"os/exec"
+	"path/filepath"
+	"strconv"
+	"strings"
+	"time"
+)
+
+// ---- s-expressions ------------------------------------------------------------------------------
+
+type sx struct {
+	atom string
+	list []*sx
+}
+
+func (s *sx) isAtom() bool { return s.list == nil && s.atom != "" }
+func (s *sx) String() string {
+	if s.list == nil {
+		return s.atom
+	}
+	var p []string
+	for _, c := range s.list {
+		p = append(p, c.String())
+	}
+	return "(" + strings.Join(p, " ") + ")"
+}
+
+func parseSx(src string) (*sx, error) {
+	p := 0
+	var rec func() (*sx, error)
+	rec = func() (*sx, error) {
+		for p < len(src) && (src[p] == ' ' || src[p] == '\n' || src[p] == '\t') {
+			p++
+		}
+		if p >= len(src) {
+			return nil, fmt.Errorf("eof")
+		}
+		if src[p] == '(' {
+			p++
+			n := &sx{list: []*sx{}}
+			for {
+				for p < len(src) && (src[p] == ' ' || src[p] == '\n' || src[p] == '\t') {
+					p++
+				}
+				if p >= len(src) {
+					return nil, fmt.Errorf("unbalanced")
+				}
+				if src[p] == ')' {
+					p++
+					return n, nil
+				}
+				c, err := rec()
+				if err != nil {
+					return nil, err
+				}
+				n.list = append(n.list, c)
+			}
+		}
+		q := p
+		if src[p] == '"' {
+			p++
+			for p < len(src) && src[p] != '"' {
+				p++
+			}
+			p++
+		} else {
+			for p < len(src) && !strings.ContainsRune(" \n\t()", rune(src[p])) {
+				p++
+			}
+		}
+		return &sx{atom: src[q:p]}, nil
+	}
+	return rec()
+}
+
+func (s *sx) head() string {
+	if s.list != nil && len(s.list) > 0 && s.list[0].isAtom() {
+		return s.list[0].atom
+	}
+	return ""
+}
+
+// intOf decodes an integer literal (Int or BitVec) with the given signedness/bits (bits=0: Int).
+func intOf(s *sx, bits int, signed bool) (*big.Int, bool) {
+	if s.isAtom() {
+		a := s.atom
+		if strings.HasPrefix(a, "#x") {
+			b, ok := new(big.Int).SetString(a[2:], 16)
+			if !ok {
+				return nil, false
+			}
+			return fixSign(b, (len(a)-2)*4, signed), true
+		}
+		if strings.HasPrefix(a, "#b") {
+			b, ok := new(big.Int).SetString(a[2:], 2)
+			if !ok {
+				return nil, false
+			}
+			return fixSign(b, len(a)-2, signed), true
+		}
+		b, ok := new(big.Int).SetString(a, 10)
+		return b, ok
+	}
+	if s.head() == "-" && len(s.list) == 2 {
+		b, ok := intOf(s.list[1], bits, signed)
+		if !ok {
+			return nil, false
+		}
+		return new(big.Int).Neg(b), true
+	}
+	if s.head() == "_" && len(s.list) == 3 && strings.HasPrefix(s.list[1].atom, "bv") {
+		b, ok := new(big.Int).SetString(s.list[1].atom[2:], 10)
+		w, _ := strconv.Atoi(s.list[2].atom)
+		if !ok {
+			return nil, false
+		}
+		return fixSign(b, w, signed), true
+	}
+	return nil, false
+}
+
+func fixSign(b *big.Int, width int, signed bool) *big.Int {
+	if signed && width > 0 && b.Bit(width-1) == 1 {
+		return new(big.Int).Sub(b, new(big.Int).Lsh(big.NewInt(1), uint(width)))
+	}
+	return b
+}
+
+// arrayLookup evaluates a model array value at integer index i (best effort).
+func arrayLookup(arr *sx, i int64) *sx {
+	for {
+		if arr.list == nil {
+			return nil
+		}
+		switch {
+		case arr.head() == "store" && len(arr.list) == 4:
+			k, ok := intOf(arr.list[2], 0, true)
+			if ok && k.IsInt64() && k.Int64() == i {
+				return arr.list[3]
+			}
+			arr = arr.list[1]
+		case len(arr.list) == 2 && arr.list[0].head() == "as" && arr.list[0].list[1].atom == "const":
+			return arr.list[1]
+		default:
+			return nil
+		}
+	}
+}
+
+// ---- model value -> Go expression -----------------------------------------------------------------
+
+type goConv struct {
+	S    *Sorts
+	pkg  *types.Package
+	mode IntMode
+	need map[string]bool // imports
+}
+
+func (c *goConv) typeStr(t types.Type) string {
+	return types.TypeString(t, func(p *types.Package) string {
+		if p == c.pkg {
+			return ""
+		}
+		c.need[p.Path()] = true
+		return p.Name()
+	})
+}
+
+func (c *goConv) expr(v *sx, t types.Type) (string, error) {
+	switch u := t.Underlying().(type) {
+	case *types.Basic:
+		switch {
+		case isBool(t):
+			if v.atom != "true" && v.atom != "false" {
+				return "", fmt.Errorf("bad bool %s", v)
+			}
+			return c.typeStr(t) + "(" + v.atom + ")", nil
+		case isString(t):
+			b, err := c.strBytes(v)
+			if err != nil {
+				return "", err
+			}
+			return c.typeStr(t) + "(" + strconv.Quote(string(b)) + ")", nil
+		}
+		if bits, ok := isFloat(t); ok {
+			fb, err := fpBits(v, bits)
+			if err != nil {
+				return "", err
+			}
+			c.need["math"] = true
+			if bits == 32 {
+				return fmt.Sprintf("%s(math.Float32frombits(0x%x))", c.typeStr(t), fb), nil
+			}
+			return fmt.Sprintf("%s(math.Float64frombits(0x%x))", c.typeStr(t), fb), nil
+		}
+		if bits, signed, ok := intInfo(t); ok {
+			n, ok := intOf(v, bits, signed)
+			if !ok {
+				return "", fmt.Errorf("bad int %s", v)
+			}
+			return c.typeStr(t) + "(" + n.String() + ")", nil
+		}
+		_ = u
+	case *types.Interface:
+		if v.isAtom() && v.atom == "iface_nil" {
+			return "nil", nil
+		}
+		h := v.head()
+		for _, ci := range c.S.consList {
+			if ci.name == h && len(v.list) == 2 {
+				inner, err := c.expr(v.list[1], ci.t)
+				if err != nil {
+					return "", err
+				}
+				return c.typeStr(t) + "(" + inner + ")", nil
+			}
+		}
+		return "", fmt.Errorf("interface value of unknown dynamic type: %s", truncate(v.String(), 80))
+	case *types.Struct:
+		si := c.S.structInfoOf(t)
+		if v.head() != "mk_"+si.name {
+			return "", fmt.Errorf("bad struct value %s", truncate(v.String(), 80))
+		}
+		var parts []string
+		for i := 0; i < u.NumFields(); i++ {
+			fe, err := c.expr(v.list[1+i], u.Field(i).Type())
+			if err != nil {
+				return "", err
+			}
+			parts = append(parts, u.Field(i).Name()+": "+fe)
+		}
+		return c.typeStr(t) + "{" + strings.Join(parts, ", ") + "}", nil
+	case *types.Pointer:
+		if n, ok := intOf(v, 0, true); ok && n.Sign() == 0 {
+			return "(" + c.typeStr(t) + ")(nil)", nil
+		}
+		return "", fmt.Errorf("non-nil pointer input not replayable")
+	case *types.Slice:
+		if v.head() == "mk_slice" {
+			if n, ok := intOf(v.list[1], 0, true); ok && n.Sign() == 0 {
+				return c.typeStr(t) + "(nil)", nil
+			}
+		}
+		return "", fmt.Errorf("non-nil slice input not replayable")
+	}
+	return "", fmt.Errorf("type %s not replayable", t)
+}
+
+func (c *goConv) strBytes(v *sx) ([]byte, error) {
+	if v.isAtom() {
+		return nil, fmt.Errorf("opaque string value %s", v.atom)
+	}
+	if v.head() != "mk_str" || len(v.list) != 4 {
+		return nil, fmt.Errorf("bad string value %s", truncate(v.String(), 80))
+	}
+	off, ok1 := intOf(v.list[2], 64, true)
+	ln, ok2 := intOf(v.list[3], 64, true)
+	if !ok1 || !ok2 || ln.Sign() < 0 || ln.Int64() > 4096 {
+		return nil, fmt.Errorf("string too long or malformed (len %v)", ln)
+	}
+	out := make([]byte, ln.Int64())
+	for i := int64(0); i < ln.Int64(); i++ {
+		e := arrayLookup(v.list[1], off.Int64()+i)
+		if e == nil {
+			out[i] = 'x'
+			continue
+		}
+		n, ok := intOf(e, 8, false)
+		if !ok {
+			out[i] = 'x'
+			continue
+		}
+		out[i] = byte(n.Int64())
+	}
+	return out, nil
+}
+
+func fpBits(v *sx, bits int) (uint64, error) {
+	eb, sb := 11, 52
+	if bits == 32 {
+		eb, sb = 8, 23
+	}
+	if v.head() == "fp" && len(v.list) == 4 {
+		s, _ := intOf(v.list[1], 0, false)
+		e, _ := intOf(v.list[2], 0, false)
+		m, _ := intOf(v.list[3], 0, false)
+		if s == nil || e == nil || m == nil {
+			return 0, fmt.Errorf("bad fp %s", v)
+		}
+		return s.Uint64()<<uint(eb+sb) | e.Uint64()<<uint(sb) | m.Uint64(), nil
+	}
+	if v.head() == "_" && len(v.list) == 4 {
+		expAll := (uint64(1)<<uint(eb) - 1) << uint(sb)
+		switch v.list[1].atom {
+		case "+zero":
+			return 0, nil
+		case "-zero":
+			return 1 << uint(eb+sb), nil
+		case "+oo":
+			return expAll, nil
+		case "-oo":
+			return 1<<uint(eb+sb) | expAll, nil
+		case "NaN":
+			return expAll | 1<<uint(sb-1), nil
+		}
+	}
+	return 0, fmt.Errorf("bad fp value %s", v)
+}
+
+// ---- test generation -------------------------------------------------------------------------------
+
+const replayHelpers = `
+func govcEnc(v interface{}) string {
+	if v == nil {
+		return "nil"
+	}
+	if e, ok := v.(error); ok {
+		rv := reflect.ValueOf(v)
+		if rv.Kind() == reflect.Ptr && rv.IsNil() {
+			return "nil"
+		}
+		return "error:" + strconv.Quote(e.Error())
+	}
+	rv := reflect.ValueOf(v)
+	tn := rv.Type().String()
+	switch rv.Kind() {
+	case reflect.Bool:
+		return fmt.Sprintf("%s:bool:%v", tn, rv.Bool())
+	case reflect.Int, reflect.Int8, reflect.Int16, reflect.Int32, reflect.Int64:
+		return fmt.Sprintf("%s:int:%d", tn, rv.Int())
+	case reflect.Uint, reflect.Uint8, reflect.Uint16, reflect.Uint32, reflect.Uint64, reflect.Uintptr:
+		return fmt.Sprintf("%s:uint:%d", tn, rv.Uint())
+	case reflect.Float32:
+		return fmt.Sprintf("%s:f32:%d", tn, math.Float32bits(float32(rv.Float())))
+	case reflect.Float64:
+		return fmt.Sprintf("%s:f64:%d", tn, math.Float64bits(rv.Float()))
+	case reflect.String:
+		return fmt.Sprintf("%s:str:%x", tn, rv.String())
+	case reflect.Struct:
+		s := tn + ":struct:{"
+		for i := 0; i < rv.NumField(); i++ {
+			f := rv.Field(i)
+			if i > 0 {
+				s += ";"
+			}
+			switch f.Kind() {
+			case reflect.Int, reflect.Int8, reflect.Int16, reflect.Int32, reflect.Int64:
+				s += fmt.Sprintf("int:%d", f.Int())
+			case reflect.String:
+				s += fmt.Sprintf("str:%x", f.String())
+			case reflect.Bool:
+				s += fmt.Sprintf("bool:%v", f.Bool())
+			default:
+				s += "?"
+			}
+		}
+		return s + "}"
+	case reflect.Ptr, reflect.Slice, reflect.Map, reflect.Func, reflect.Interface:
+		if rv.IsNil() {
+			return tn + ":nilref"
+		}
+		return tn + ":ref"
+	}
+	return tn + ":?"
+}
+`
+
+type replayPlan struct {
+	pkgDir  string
+	pkgName string
+	test    string
+}
+
+type replayTest struct {
+	pkg     string
+	fnSrc   string // body of the test function: "func TestGovcReplay_N(t *testing.T) {...}" with name placeholder GOVCNAME
+	imports map[string]bool
+	inputs  map[string]string
+}
+
+func (P *Program) buildReplayTest(o *Obligation, vals map[string]string) (*replayTest, error) {
+	fn := P.funcs[o.Fn]
+	if fn == nil {
+		return nil, fmt.Errorf("no function for %s", o.Fn)
+	}
+	if fn.Parent() != nil {
+		return nil, fmt.Errorf("closures are not replayable directly")
+	}
+	if o.sorts == nil {
+		return nil, fmt.Errorf("no sorts")
+	}
+	cv := &goConv{S: o.sorts, pkg: fn.Pkg.Pkg, mode: o.sorts.mode, need: map[string]bool{}}
+	var args []string
+	inputs := map[string]string{}
+	for _, mv := range o.model {
+		raw, ok := vals[mv.Term]
+		var e string
+		if !ok || raw == "" {
+			e = "*new(" + cv.typeStr(mv.T) + ")"
+		} else {
+			tree, err := parseSx(raw)
+			if err != nil {
+				return nil, err
+			}
+			ge, err := cv.expr(tree, mv.T)
+			if err != nil {
+				return nil, fmt.Errorf("parameter %s: %v", mv.Name, err)
+			}
+			e = ge
+		}
+		args = append(args, e)
+		inputs[mv.Name] = e
+	}
+	sig := fn.Signature
+	var call string
+	if sig.Recv() != nil {
+		if len(args) == 0 {
+			return nil, fmt.Errorf("missing receiver")
+		}
+		call = "(" + args[0] + ")." + fn.Name() + "(" + strings.Join(args[1:], ", ") + ")"
+	} else {
+		call = fn.Name() + "(" + strings.Join(args, ", ") + ")"
+	}
+	nres := sig.Results().Len()
+	var lhs []string
+	for i := 0; i < nres; i++ {
+		lhs = append(lhs, fmt.Sprintf("r%d", i))
+	}
+	var b strings.Builder
+	fmt.Fprintf(&b, "func GOVCNAME(t *testing.T) {\n\tdefer func() {\n\t\tif r := recover(); r != nil {\n\t\t\tfmt.Printf(\"GOVC-PANIC %%v\\n\", r)\n\t\t}\n\t}()\n")
+	if nres > 0 {
+		fmt.Fprintf(&b, "\t%s := %s\n", strings.Join(lhs, ", "), call)
+		for i := 0; i < nres; i++ {
+			fmt.Fprintf(&b, "\tfmt.Printf(\"GOVC-RESULT %d %%s\\n\", govcEnc(r%d))\n", i, i)
+		}
+	} else {
+		fmt.Fprintf(&b, "\t%s\n", call)
+	}
+	b.WriteString("\tfmt.Println(\"GOVC-DONE\")\n}\n")
+	return &replayTest{pkg: fn.Pkg.Pkg.Name(), fnSrc: b.String(), imports: cv.need, inputs: inputs}, nil
+}
+
+// assembleTestFile builds one _test.go file holding several replay functions.
+func assembleTestFile(pkg string, tests []*replayTest, names []string) string {
+	var b strings.Builder
+	imps := map[string]bool{}
+	for _, t := range tests {
+		for k := range t.imports {
+			imps[k] = true
+		}
+	}
+	fmt.Fprintf(&b, "package %s\n\nimport (\n\t\"fmt\"\n\t\"math\"\n\t\"reflect\"\n\t\"strconv\"\n\t\"testing\"\n", pkg)
+	for _, imp := range sortedKeys(imps) {
+		if imp != "math" && imp != "fmt" && imp != "reflect" && imp != "strconv" && imp != "testing" {
+			fmt.Fprintf(&b, "\t%q\n", imp)
+		}
+	}
+	b.WriteString(")\n\nvar _ = math.Pi\nvar _ = strconv.Itoa\nvar _ = reflect.TypeOf\n")
+	b.WriteString(replayHelpers)
+	for i, t := range tests {
+		b.WriteString("\n")
+		b.WriteString(strings.Replace(t.fnSrc, "GOVCNAME", names[i], 1))
+	}
+	return b.String()
+}
+
+// runGoTest injects test into the package of fnKey via -overlay and runs it. Returns output and whether it ran.
+func runGoTest(repo, fnKey, test string) (string, bool) {
+	pkg := strings.SplitN(fnKey, ".", 2)[0]
+	if i := strings.Index(pkg, "#"); i >= 0 {
+		pkg = pkg[:i]
+	}
+	dir, err := os.MkdirTemp("", "govc-replay-")
+	if err != nil {
+		return err.Error(), false
+	}
+	defer os.RemoveAll(dir)
+	tf := filepath.Join(dir, "zz_govc_replay_test.go")
+	os.WriteFile(tf, []byte(test), 0o644)
+	ov := map[string]map[string]string{"Replace": {filepath.Join(repo, pkg, "zz_govc_replay_test.go"): tf}}
+	ob, _ := json.Marshal(ov)
+	of := filepath.Join(dir, "ov.json")
+	os.WriteFile(of, ob, 0o644)
+	ctx, cancel := context.WithTimeout(context.Background(), 180*time.Second)
+	defer cancel()
+	cmd := exec.CommandContext(ctx, "go", "test", "-overlay", of, "-vet=off", "-timeout", "60s", "-run", "^TestGovcReplay", "-count=1", "-v", "./"+pkg+"/")
+	cmd.Dir = repo
+	cmd.Env = goEnv()
+	var out bytes.Buffer
+	cmd.Stdout = &out
+	cmd.Stderr = &out
+	err = cmd.Run()
+	s := out.String()
+	return s, strings.Contains(s, "GOVC-DONE") || strings.Contains(s, "GOVC-PANIC")
+}
+
+// observedToSMT converts an encoded observed result to an SMT term of the sort of static type t.
+func observedToSMT(S *Sorts, enc string, t types.Type) (string, string, error) {
+	// returns (term, extraAssertion)
+	if isIface(t) {
+		if enc == "nil" || strings.HasSuffix(enc, ":nilref") {
+			return "iface_nil", "", nil
+		}
+		if strings.HasPrefix(enc, "error:") {
+			return "", "nonnil", nil
+		}
+		parts := strings.SplitN(enc, ":", 3)
+		if len(parts) < 3 {
+			return "", "nonnil", nil
+		}
+		for _, ci := range S.consList {
+			if ci.key == parts[0] {
+				inner, _, err := observedToSMT(S, enc, ci.t)
+				if err != nil {
+					return "", "", err
+				}
+				return "(" + ci.name + " " + inner + ")", "", nil
+			}
+		}
+		return "", "nonnil", nil
+	}
+	parts := strings.SplitN(enc, ":", 3)
+	if len(parts) < 3 {
+		return "", "", fmt.Errorf("cannot decode %q", enc)
+	}
+	kind, val := parts[1], parts[2]
+	switch kind {
+	case "bool":
+		return val, "", nil
+	case "int", "uint":
+		bits, _, ok := intInfo(t)
+		if !ok {
+			return "", "", fmt.Errorf("int result for %s", t)
+		}
+		n, _ := new(big.Int).SetString(val, 10)
+		if S.mode == ModeInt {
+			if n.Sign() < 0 {
+				return "(- " + new(big.Int).Neg(n).String() + ")", "", nil
+			}
+			return n.String(), "", nil
+		}
+		if n.Sign() < 0 {
+			n.Add(n, new(big.Int).Lsh(big.NewInt(1), uint(bits)))
+		}
+		return bvConst(n.Uint64(), bits), "", nil
+	case "f64":
+		u, _ := strconv.ParseUint(val, 10, 64)
+		return fmt.Sprintf("(fp #b%01b #b%011b #b%052b)", u>>63, (u>>52)&0x7ff, u&0xfffffffffffff), "", nil
+	case "f32":
+		u, _ := strconv.ParseUint(val, 10, 32)
+		return fmt.Sprintf("(fp #b%01b #b%08b #b%023b)", u>>31, (u>>23)&0xff, u&0x7fffff), "", nil
+	case "struct":
+		st, ok := t.Underlying().(*types.Struct)
+		if !ok {
+			return "", "", fmt.Errorf("struct result for %s", t)
+		}
+		body := strings.TrimSuffix(strings.TrimPrefix(val, "{"), "}")
+		fs := strings.Split(body, ";")
+		if len(fs) != st.NumFields() {
+			return "", "", fmt.Errorf("struct arity")
+		}
+		var terms []string
+		for i, f := range fs {
+			ft := st.Field(i).Type()
+			if f == "?" {
+				return "", "", fmt.Errorf("struct field not encodable")
+			}
+			kv := strings.SplitN(f, ":", 2)
+			term, _, err := observedToSMT(S, "x:"+kv[0]+":"+kv[1], ft)
+			if err != nil {
+				return "", "", err
+			}
+			terms = append(terms, term)
+		}
+		return S.mkStruct(t, terms), "", nil
+	case "str":
+		return "", "", fmt.Errorf("string results are not encoded")
+	}
+	return "", "", fmt.Errorf("cannot encode observed %q", enc)
+}
+
+// splitTestOutput cuts "go test -v" output into per-test sections.
+func splitTestOutput(out string) map[string]string {
+	res := map[string]string{}
+	cur := ""
+	for _, line := range strings.Split(out, "\n") {
+		if strings.HasPrefix(line, "=== RUN   ") {
+			cur = strings.TrimSpace(strings.TrimPrefix(line, "=== RUN   "))
+			continue
+		}
+		if strings.HasPrefix(line, "--- ") {
+			cur = ""
+			continue
+		}
+		if cur != "" {
+			res[cur] += line + "\n"
+		}
+	}
+	return res
+}
+
+// judgeReplay decides whether the observed execution reproduces the failed obligation.
+func judgeReplay(rf *ReplayFile, o *Obligation, vals map[string]string, out string) {
+	rf.Output = truncate(out, 6000)
+	if !strings.Contains(out, "GOVC-DONE") && !strings.Contains(out, "GOVC-PANIC") {
+		return
+	}
+	panicked := strings.Contains(out, "GOVC-PANIC")
+	if o.Kind == "safety" {
+		rf.Reproduced = panicked
+		return
+	}
+	if panicked {
+		// a postcondition obligation whose counterexample panics on the real code: still a failing input
+		rf.Reproduced = true
+		return
+	}
+	if o.Kind != "post" || o.oracle == "" {
+		return
+	}
+	// evaluate the violated clause on the observed results
+	var asserts []string
+	for _, mv := range o.model {
+		if raw, ok := vals[mv.Term]; ok {
+			asserts = append(asserts, "(assert (= "+mv.Term+" "+raw+"))")
+		}
+	}
+	for _, line := range strings.Split(out, "\n") {
+		if !strings.HasPrefix(line, "GOVC-RESULT ") {
+			continue
+		}
+		f := strings.SplitN(line, " ", 3)
+		i, _ := strconv.Atoi(f[1])
+		if i >= len(o.oracleRes) {
+			continue
+		}
+		rv := o.oracleRes[i]
+		term, extra, err := observedToSMT(o.sorts, f[2], rv.T)
+		if err != nil {
+			rf.Output += "\noracle: " + err.Error()
+			return
+		}
+		if extra == "nonnil" {
+			asserts = append(asserts, "(assert (not ((_ is iface_nil) "+rv.Term+")))")
+		} else {
+			asserts = append(asserts, "(assert (= "+rv.Term+" "+term+"))")
+		}
+	}
+	script := strings.Replace(o.oracle, ";;ORACLE-INPUTS", strings.Join(asserts, "\n"), 1)
+	dir, _ := os.MkdirTemp("", "govc-oracle-")
+	defer os.RemoveAll(dir)
+	r := solve(script, dir, "oracle", 20*time.Second, nil, false)
+	rf.Output += "\noracle (clause evaluated on the observed results): " + r.answer + " [sat = clause violated by the real execution]"
+	rf.Reproduced = r.answer == "sat"
+}
